@@ -165,7 +165,7 @@ def tlc(module, cfg, workers=None, simulate=None, depth=None, seed=None, env=Non
     """Run TLC on spec/<module>.tla with spec/<cfg>. Returns TlcResult. Raises MachineryError on
     parse/semantic errors. An invariant violation is *reported* in result.violated, not raised."""
     meta = tempfile.mkdtemp(prefix="tlc-", dir=_mk(os.path.join(CACHE, "tlc")))
-    cmd = ["java", "-XX:+UseParallelGC", "-Xmx" + xmx]
+    cmd = ["java", "-XX:+UseParallelGC", "-Xmx" + xmx, "-Xss256m"]
     if deque:
         cmd.append("-Dtlc2.tool.queue.IStateQueue=StateDeque")
     cmd += ["-cp", "/opt/veriftools/tla/tla2tools.jar:/opt/veriftools/tla/CommunityModules-deps.jar",
